@@ -127,9 +127,42 @@ def fastsim_emitters(ctx):
                'the surrounding program text: bounded families')
 
 
+def _mulc(task):
+    from fam import simcheck
+    try:
+        return simcheck.wide_mul_corners(**task)
+    except Exception:
+        from vlib.guard import guarded
+
+        def _re():
+            raise
+        return guarded(_re)
+
+
+def wide_mul_family(ctx):
+    tasks = [dict(simname=s, w=w, seed=ctx.seed) for s in ('CompiledSimulation', 'FastSimulation')
+             for w in ((128, 129, 192) if ctx.tier == 'quick' else (65, 127, 128, 129, 192, 200, 256))]
+    res = passcheck.pmap(_mulc, tasks)
+    ev = 0
+    for t, r in zip(tasks, res):
+        ev += r.get('evaluations', 0)
+        if r.get('crashed'):
+            ctx.crashes.append('C02.wide_mul: %s' % r['observed'][-300:])
+        elif r['failed']:
+            ctx.confirm_and_report('C02.wide_mul_corners[%s|w=%d]' % (t['simname'], t['w']), 'call',
+                                   dict(module='fam.simcheck', func='wide_mul_corners', kwargs=t),
+                                   canonical_input=dict(sim=t['simname'], w=t['w']),
+                                   function='pyrtl.compilesim.CompiledSimulation._build_mul / FastSimulation',
+                                   text='multi-limb product differs from the exact product')
+    ctx.family('C02.wide_mul_corners', 'B', instances=len(tasks), evaluations=ev, nontrivial=ev,
+               bound='a*b with both operands spanning 2..4 limbs; limb patterns {0,1,2^64-1,2^64-2,2^63,2^63+1,..} '
+                     'in every limb position + random; full and truncated product', sample=tasks[0])
+
+
 def run(ctx):
     fastsim_emitters(ctx)
     cnet_family(ctx)
+    wide_mul_family(ctx)
     base = designs.family(ctx.tier, ctx.seed)
     wide = designs.wide_family(ctx.tier)
     reps = 3 if ctx.tier == 'quick' else 6
